@@ -58,6 +58,33 @@ pub fn scenarios(prop: &str) -> Vec<Scenario> {
         return v;
     }
     let mut v = Vec::new();
+    if prop == "C14" {
+        // a peer frozen at every point inside its own operation: the peer makes j steps, then
+        // the non-blocking operation runs (realtime variants: its first i steps scheduled
+        // normally, the rest with everybody else suspended)
+        for cap in [Cap::N(0), Cap::N(1)] {
+            for pay in [Pay::P4, Pay::P16] {
+                for owner in [K::TrySendRt, K::TrySendOptRt, K::TryRecvRt, K::TrySend, K::TryRecv, K::Drain] {
+                    for peer in [
+                        vec![K::Send],
+                        vec![K::Recv],
+                        vec![K::AsyncSend],
+                        vec![K::AsyncRecv],
+                        vec![K::SendTimeout],
+                        vec![K::RecvTimeout],
+                        vec![K::TrySend, K::TryRecv],
+                        vec![K::Drain],
+                        vec![K::Close],
+                        vec![K::DropH, K::DropH],
+                        vec![K::CloneH, K::Observe],
+                    ] {
+                        v.push(Scenario { owner, peer, cap, pay });
+                    }
+                }
+            }
+        }
+        return v;
+    }
     if prop == "C06" {
         // spin-then-park transition: the owner blocks, spins to the end of its spin phase, makes
         // i more steps (storing its thread handle, announcing that it parks, parking), then the
@@ -163,11 +190,24 @@ pub fn build_case(p: &Profile, sc: &Scenario, i: u32, j: u32) -> Case {
     cfg[3] = 0x55;
     cfg[4] = 0;
     cfg[5] = (i as u8).wrapping_mul(31).wrapping_add(j as u8);
-    // owner: first poll, Yield(2), Drop  (script nibbles 4, 6); timed owners: 3 ticks
+    // owner: first poll, Yield(2), Drop  (script nibbles 4, 6); timed owners: 3 ticks;
+    // non-blocking owners: run alone after their first i steps
     let timed = sc.owner.is_timed();
-    let mut owner_ops = vec![[byte_for(p, sc.owner), 0, if timed { 120 } else { 0x64 }, 0]];
+    let tryk = sc.owner.is_try();
+    let owner_a = if timed {
+        120
+    } else if tryk {
+        1 | ((i.min(31) as u8) << 1)
+    } else {
+        0x64
+    };
+    let mut owner_ops = vec![[byte_for(p, sc.owner), 0, owner_a, 0]];
+    if tryk {
+        // twice: the second call sees whatever the peer did in the meantime
+        owner_ops.push([byte_for(p, sc.owner), 0, owner_a, 0]);
+    }
     // a full buffer for capacity 1 so that the send really waits
-    if sc.owner.is_send() {
+    if sc.owner.is_send() && !tryk {
         if let Cap::N(n) = sc.cap {
             for _ in 0..n {
                 owner_ops.insert(0, [byte_for(p, K::TrySend), 0, 0, 0]);
@@ -189,6 +229,20 @@ pub fn build_case(p: &Profile, sc: &Scenario, i: u32, j: u32) -> Case {
     if matches!(sc.owner, K::Recv | K::Send) {
         // first run the owner to the end of its spin phase (position-targeted segment)
         sched.extend_from_slice(&[0u8, 13u8]);
+    }
+    if tryk {
+        // the peer first (j steps), then the owner for a long run; `i` is consumed by the
+        // owner's alone-after count, not by schedule segments
+        for _ in 0..j {
+            sched.extend_from_slice(&[255u8, 0u8]);
+        }
+        sched.extend_from_slice(&[0u8, 15u8]);
+        return Case {
+            cfg,
+            threads: vec![owner_ops, peer_ops],
+            prober: vec![[byte_for_prober(p), 0, 0, 0]],
+            sched,
+        };
     }
     for _ in 0..i {
         sched.extend_from_slice(&[0u8, 0u8]);
@@ -245,7 +299,15 @@ pub fn run_part(prop: &str, tier: &str, part: usize, parts: usize) {
                 let o = run_case(prop, &case);
                 evaluations += 1;
                 let cls = |k: &str| o.classes.iter().find(|c| c.0 == k).map(|c| c.1).unwrap_or(0);
-                if prop == "C07" {
+                if prop == "C14" {
+                    if cls("rt_alone") + cls("try_lock_failed") > 0 || cls("ops") > 0 {
+                        nontrivial += 1;
+                    }
+                    if samples.is_empty() && cls("rt_alone_lock_held") > 0 {
+                        samples.push(o.sample.clone());
+                    }
+                    claimed += cls("rt_alone_lock_held") as u64;
+                } else if prop == "C07" {
                     if cls("cross_thread_accesses") > 0 {
                         nontrivial += 1;
                         if samples.is_empty() {
@@ -298,6 +360,8 @@ fn grid_for(prop: &str, tier: &str) -> (u32, u32) {
         ("C06", false) => (16, 36),
         ("C07", true) => (40, 40),
         ("C07", false) => (24, 24),
+        ("C14", true) => (20, 60),
+        ("C14", false) => (10, 40),
         (_, true) => (56, 40),
         (_, false) => (30, 22),
     }
@@ -379,7 +443,9 @@ pub fn run(prop: &str, tier: &str, seed: u64) -> i32 {
             "evaluations": evaluations,
             "distinct_nontrivial": nontrivial,
             "exhaustive": fail.is_none(),
-            "rule": if prop == "C07" {
+            "rule": if prop == "C14" {
+                format!("exhaustive grid: {} two-thread scenarios (non-blocking operation x peer operation(s) x capacity {{0,1}} x payload {{4,16 bytes}}): the peer is frozen after each of its first j in 0..={} steps, then the non-blocking operation is issued twice; realtime variants run their first i in 0..={} steps under normal scheduling and the rest with every other thread suspended and must finish within 64 steps; {} realtime calls found the lock held by the frozen peer", scs.len(), jmax, imax, claimed)
+            } else if prop == "C07" {
                 format!("exhaustive grid: {} two-thread scenarios (the park-transition, deadline-expiry and future-cancellation families of C06/C13/C15 with pointer-sized, 16- and 40-byte payloads) x owner progress i in 0..={} x peer progress j in 0..={}; the race, lifetime and waker-instance detectors judge every grid point; non-trivial = at least one cross-thread access into a published signal/slot was checked ({} such accesses in total)", scs.len(), imax, jmax, claimed)
             } else if prop == "C06" {
                 format!("exhaustive grid: {} two-thread scenarios (blocking recv / send x releasing peer operation(s) incl. close and last-handle drop x capacity {{0,1}} x payload {{4,16 bytes}}); the owner is run to the end of its 256-yield spin phase, then makes i in 0..={} further steps (store thread handle, announce parking, park), then the peer makes j in 0..={} steps, then the fair tail; every grid point is a distinct case; non-trivial = the owner really parked ({} grid points released it through unpark)", scs.len(), imax, jmax, claimed)
@@ -408,6 +474,7 @@ pub fn run(prop: &str, tier: &str, seed: u64) -> i32 {
         match prop {
             "C06" => "released through unpark",
             "C07" => "cross-thread slot/signal accesses checked",
+            "C14" => "realtime calls that met a lock held by the frozen peer",
             _ => "with the peer's claim racing the cancellation / deadline",
         },
         t0.elapsed().as_secs_f64(),
